@@ -34,27 +34,34 @@ ToSet(s) == {s[i] : i \in DOMAIN s}
 PacketSize(r, h) == h + Len(r.nm[1]) + r.nm[2] + 1 + Len(r.mod) + 1
 
 (* ---- look-ahead over the recorded lines ---- *)
-RECURSIVE FrontFirst(_, _), Ahead(_, _, _), CommitAhead(_, _, _)
-FrontFirst(i, t) ==      \* the next front / cret line of thread t from line i on is a front: the commit under way is accepted
-  IF i > Len(TLog) THEN FALSE
-  ELSE IF TLog[i].e \in {"front", "cret"} THEN (IF TLog[i].t = t THEN TLog[i].e = "front" ELSE FrontFirst(i + 1, t))
-  ELSE FrontFirst(i + 1, t)
+RECURSIVE Fate(_, _, _), Ahead(_, _, _), CommitAhead(_, _, _, _)
+Fate(i, t, stop) ==      \* which comes first from line i on: the front / cret line of thread t, or a line `stop` ("" for none)
+  IF i > Len(TLog) THEN "end"
+  ELSE IF TLog[i].e = stop THEN "stop"
+  ELSE IF TLog[i].e \in {"front", "cret"} THEN (IF TLog[i].t = t THEN TLog[i].e ELSE Fate(i + 1, t, stop))
+  ELSE Fate(i + 1, t, stop)
 Ahead(i, what, stop) ==  \* a line `what` occurs from line i on before the next line `stop`
   IF i > Len(TLog) THEN FALSE ELSE IF TLog[i].e = stop THEN FALSE ELSE IF TLog[i].e = what THEN TRUE ELSE Ahead(i + 1, what, stop)
-CommitAhead(i, acc, stop) ==   \* a commit that is accepted (acc) / dropped (~acc) starts from line i on before the next line `stop`
-  IF i > Len(TLog) THEN FALSE ELSE IF TLog[i].e = stop THEN FALSE
-  ELSE IF TLog[i].e = "commit" THEN (IF FrontFirst(i + 1, TLog[i].t) = acc THEN TRUE ELSE CommitAhead(i + 1, acc, stop))
-  ELSE CommitAhead(i + 1, acc, stop)
+CommitAhead(i, how, stop, hz) ==   \* a commit starts from line i on before the next line `stop` and ends as `how` (front: accepted /
+  IF i > Len(TLog) THEN FALSE ELSE IF TLog[i].e = stop THEN FALSE          \* cret: dropped) before the next line hz ("": whenever)
+  ELSE IF TLog[i].e = "commit" THEN (IF Fate(i + 1, TLog[i].t, hz) = how THEN TRUE ELSE CommitAhead(i + 1, how, stop, hz))
+  ELSE CommitAhead(i + 1, how, stop, hz)
 
 Reading(t) == com[t].pc \in {"c1", "c2", "c3"}
-ThreadGo(t) == com[t].pc = "c5" \/ (Reading(t) /\ FrontFirst(l, t) = ctl.en)
+(* an accepted commit reads is_enabled_ = TRUE in the enabled period of its front (disable() cannot return before it has appended),
+   a dropped one reads FALSE at the first opportunity *)
+ThreadGo(t) == \/ com[t].pc = "c5"
+               \/ Reading(t) /\ (IF Fate(l, t, "") = "front" THEN ctl.en /\ Fate(l, t, "dret") = "front" ELSE ~ctl.en)
 ComStep(t) == C1(t) \/ C2(t) \/ C3(t) \/ C5(t)
 GoThreads == {t \in Threads : ThreadGo(t)}
 FirstOf(S) == CHOOSE t \in S : \A u \in S : t <= u
 EagerBack == be.st = "proc" /\ ctl.pc # "s1" /\ ~Ahead(l, "set", "done")
+(* E2 must follow the reads of the commits that are dropped before enable() returns; a dropped commit that starts before and returns
+   after `eret` may have read before E2 or after a later D1: both are tried *)
+E2Free == ctl.pc = "e2" /\ ~(\E t \in Threads : Reading(t) /\ Fate(l, t, "eret") = "cret") /\ ~CommitAhead(l, "cret", "eret", "eret")
 CtlStep ==
-  \/ ctl.pc = "e2" /\ ~(\E t \in Threads : Reading(t) /\ ~FrontFirst(l, t)) /\ ~CommitAhead(l, FALSE, "eret") /\ E2
-  \/ ctl.pc = "d1" /\ ~(\E t \in Threads : Reading(t) /\ FrontFirst(l, t)) /\ ~CommitAhead(l, TRUE, "dret") /\ D1
+  \/ E2Free /\ ~CommitAhead(l, "cret", "eret", "") /\ E2
+  \/ ctl.pc = "d1" /\ ~(\E t \in Threads : Reading(t) /\ Fate(l, t, "dret") = "front") /\ ~CommitAhead(l, "front", "dret", "dret") /\ D1
   \/ D2
   \/ be.st = "idle" /\ D3
   \/ ctl.pc = "s1" /\ be.st # "proc" /\ ~Ahead(l, "pop", "sret") /\ S1
@@ -93,7 +100,9 @@ Lines ==
 TNext == IF EagerBack THEN Sil(Proc) \/ Sil(BatchEnd)
          ELSE IF GoThreads # {} THEN Sil(ComStep(FirstOf(GoThreads)))
          ELSE IF ENABLED CtlStep THEN Sil(CtlStep)
-         ELSE Lines \/ Sil(S1) \/ Sil(Proc) \/ Sil(BatchEnd)
+         ELSE IF be.st = "proc" /\ ctl.pc = "s1" THEN Sil(S1) \/ Sil(Proc) \/ Sil(BatchEnd)   \* the setter takes effect somewhere in the batch
+         ELSE IF be.st = "proc" THEN Lines            \* a setter call starts before the batch ends: go on to its first line
+         ELSE Lines \/ Sil(S1) \/ Sil(E2Free /\ E2)
 TSpec == TInit /\ [][TNext]_tvars
 
 Progress == TLCSet(42, IF l > TLCGet(42) THEN l ELSE TLCGet(42))
